@@ -211,6 +211,9 @@ class Check(PropertyCheck):
             combos = combos[:14] + [c for c in combos[14:] if "async" in c[1] + c[2]][:8]
         # the same histories with errors that carry something unpicklable (a lock, an open file, a generator, a lambda):
         # recording such a failure must not replace it by a serialisation error (seeded change C12d)
+        # the failing call inside a sub-scheduler run (subrun extending the execution / in a new execution)
+        combos += [(sh, "par_sync_full", le) for sh in ("subrun_ext", "subrun_new")
+                   for le in (("leaf_sync_full",) if self.tier == "quick" else ("leaf_sync_full", "leaf_sync_shallow"))]
         plain = [(sh, pa, le, None) for sh, pa, le in combos]
         carried = [(sh, pa, le, pl) for pl in ("lock", "file", "generator", "lambda")
                    for sh, pa, le in (combos if self.tier != "quick" else
